@@ -195,6 +195,41 @@ def resend_wellformed(mid: int, mid2: int, n2: int, ds1: bool, ds2: int, opt1: b
 
 # message classes whose objects the library's own providers send more than once (quick tier: the lagging schedule is
 # explored for these; thorough tier: for all 23 classes)
+@cond(bounds='each of the 23 message classes: TWO message objects of the class alive at the same time (a provider that prepares '
+             'its "match" and its "final" response up front; two acceptor threads building the same response class): A is '
+             'built and filled (message id / fields symbolic, data set present / absent symbolic), then B is built and '
+             'filled with its own values (symbolic, data set the opposite or the same), then they are sent in either order '
+             '(symbolic): each transmitted command set describes ITS message - own message id, own status, flag "no data set" '
+             'exactly when no data fragments follow (quick tier: every third class + C-FIND-RSP; thorough: all 23)',
+      family=lambda t: [dict(cls=i) for i in range(23)
+                        if t == 'thorough' or i % 3 == 0 or MSG_CLASSES[i].__name__ == 'CFindRSPMessage'], timeout=180)
+def two_live_messages(mid_a: int, mid_b: int, st_a: int, st_b: int, ds_a: bool, ds_b: bool, b_first: bool) -> bool:
+    """
+    pre: 0 <= mid_a <= 65535 and 0 <= mid_b <= 65535 and 0 <= st_a <= 65535 and 0 <= st_b <= 65535
+    post: _
+    """
+    cls = MSG_CLASSES[fam('cls')]
+    assoc = make_assoc(16384, 0)
+    a = cls()
+    set_fields(a, mid_a, st_a, 2, True)
+    a.data_set = DS1 if ds_a else None
+    b = cls()
+    set_fields(b, mid_b, st_b, 3, False)
+    b.data_set = DS1 if ds_b else None
+    order = [(b, mid_b, st_b, ds_b), (a, mid_a, st_a, ds_a)] if b_first else [(a, mid_a, st_a, ds_a), (b, mid_b, st_b, ds_b)]
+    ok = True
+    for i, (m, mid, st, ds) in enumerate(order):
+        assoc.send(m, 3)
+        ok = ok and sent_ok(assoc, cls, 3, ds, index=i, mid=mid)
+        if ok and 'Status' in m.command_fields:
+            elems = ivrle.parse(b''.join(p.data_value_items[0].data_value[1:] for p in assoc.dul.sent[i]
+                                         if p.data_value_items[0].data_value[0] in (1, 3)))
+            sv = ivrle.find(elems, 0, 0x0900)
+            ok = ok and sv is not None and ivrle.us(sv) == st
+    deep(ok and ds_a and not ds_b and not b_first)
+    return ok
+
+
 RESENT_BY_LIBRARY = ('CFindRSPMessage', 'CMoveRSPMessage', 'CGetRSPMessage', 'CStoreRQMessage', 'CStoreRSPMessage',
                      'CEchoRSPMessage', 'NActionRSPMessage', 'NEventReportRQMessage')
 
@@ -218,10 +253,23 @@ def explain(cname, args, famv):
         raw = b''.join(p.data_value_items[0].data_value[1:] for p in pdus if p.data_value_items[0].data_value[0] in (1, 3))
         el = ivrle.parse(raw)
         gl = ivrle.ul(el[0][2]) if el and len(el[0][2]) == 4 else None
-        out.append('%s send %d: group length element says %r, bytes following it: %d, data fragments: %d, '
+        out.append('%s send %s: group length element says %r, bytes following it: %d, data fragments: %d, '
                    'data-set-type: %r' % (cls.__name__, i, gl, len(raw) - 8 - len(el[0][2]) if el else -1,
                                            sum(1 for p in pdus if p.data_value_items[0].data_value[0] in (0, 2)),
                                            ivrle.find(el, 0, 0x0800) if el else None))
+    if cname == 'two_live_messages':
+        set_fields(msg, args['mid_a'], args['st_a'], 2, True)
+        msg.data_set = DS1 if args['ds_a'] else None
+        other = cls()
+        set_fields(other, args['mid_b'], args['st_b'], 3, False)
+        other.data_set = DS1 if args['ds_b'] else None
+        for i, m in enumerate([other, msg] if args['b_first'] else [msg, other]):
+            a.send(m, 3)
+            show('of A' if m is msg else 'of B')
+        return 'A: message id %d, status %d, data set %r; B: message id %d, status %d, data set %r\n' % (
+            args['mid_a'], args['st_a'], args['ds_a'], args['mid_b'], args['st_b'], args['ds_b']) + '\n'.join(out)
+    if cname == 'extra_status_elements':
+        return 'see the condition source'
     if cname == 'command_set_wellformed':
         set_fields(msg, args['mid'], args['st'], args['n'], args['opt'])
         msg.data_set = DS1 if args['ds1'] else None
